@@ -51,7 +51,7 @@ func (s *verifRefSubnet) event(now int64, num uint, ivl int64, backoffCount uint
 // per-subnet sliding-window + hit-counter reference; subnets are separated exactly
 // by the masked prefix; allowlist and ANY refusal are honoured.
 //
-//verif:harness name=H09b-backoff tier=quick bounds="2 clients of one family (v4 or v6, full-width addresses), key length full range, 1 allowlist prefix, count 1..2, backoff count 1..2, 3 events, no cache expiry within the horizon" reach=done,dropped,passed,allowlisted,two-subnets,same-subnet maxpaths=60000
+//verif:harness name=H09b-backoff tier=quick bounds="2 clients of one family (v4 or v6, full-width addresses; the other family configured with a different count, interval and key length), key length full range, 1 allowlist prefix, count 1..2, backoff count 1..2, 3 events, no cache expiry within the horizon" reach=done,dropped,passed,allowlisted,two-subnets,same-subnet maxpaths=60000
 //verif:assume request/hit counters do not expire within the explored horizon (go-cache with no expiration); clock readings positive, non-decreasing, below 2^62
 func VerifC09Backoff() { verifC09Backoff(3) }
 
@@ -85,20 +85,26 @@ func verifC09Backoff(events int) {
 	alPrefix := netip.PrefixFrom(alAddr, alBits).Masked()
 	al := NewDynamicAllowlist([]netip.Prefix{alPrefix}, nil)
 
-	l := NewBackoff(&BackoffConfig{
+	otherIvl := nondetI64()
+	verifAssume(otherIvl > 0)
+	verifAssume(otherIvl < 1<<62)
+	conf := &BackoffConfig{
 		Allowlist:            al,
 		Period:               0,
 		Duration:             0,
 		Count:                backoffCount,
 		ResponseSizeEstimate: 12,
-		IPv4Count:            num,
-		IPv4Interval:         time.Duration(ivl),
-		IPv4SubnetKeyLen:     keyLen,
-		IPv6Count:            num,
-		IPv6Interval:         time.Duration(ivl),
-		IPv6SubnetKeyLen:     keyLen,
 		RefuseANY:            refuseANY,
-	})
+	}
+	// the clients' family gets the parameters under test, the other family different ones
+	if is6 {
+		conf.IPv6Count, conf.IPv6Interval, conf.IPv6SubnetKeyLen = num, time.Duration(ivl), keyLen
+		conf.IPv4Count, conf.IPv4Interval, conf.IPv4SubnetKeyLen = 3-num, time.Duration(otherIvl), 24
+	} else {
+		conf.IPv4Count, conf.IPv4Interval, conf.IPv4SubnetKeyLen = num, time.Duration(ivl), keyLen
+		conf.IPv6Count, conf.IPv6Interval, conf.IPv6SubnetKeyLen = 3-num, time.Duration(otherIvl), 56
+	}
+	l := NewBackoff(conf)
 
 	pa, _ := a.Prefix(keyLen)
 	pb, _ := b.Prefix(keyLen)
